@@ -438,3 +438,29 @@ _k('K.dynroot.stash_fetch', 'k_dynroot_stash_fetch', ['C14', 'C06', 'C01', 'C19'
 _k('K.dynroot.foreign_rejected', 'k_dynroot_foreign_handle_rejected', ['C14', 'C20', 'C12'], 'contains / try_fetch reject a handle from a second set of the same arena and from a set of another arena')
 _k('K.dynroot.fetch_foreign_panics', 'k_dynroot_fetch_foreign_panics', ['C14'], 'fetch panics for a foreign handle (should_panic row)')
 _k('K.dynroot.handle_lifecycle', 'k_dynroot_handle_lifecycle', ['C14', 'C20'], 'clone counted, slot kept while a handle exists and vacated with the last one, handles that outlive their set touch nothing')
+
+# ---- provided Collect impls (C16) and derive output (C15), against a recording Trace
+_k('K.collect.wrappers', 'k_collect_wrappers', ['C16'], 'Option, Result (both variants), Box, Rc, Arc, Lock, RefLock, OnceLock, PhantomData, Static, &static, Cell, RefCell: exact pointers and strengths; NEEDS_TRACE table for every impl (true whenever a parameter is, false only for static data)')
+_k('K.collect.tuples', 'k_collect_tuples', ['C16'], 'tuples of arity 1, 2, 3 and 16: every position, in order, strengths kept')
+_k('K.collect.slices_arrays', 'k_collect_slices_arrays', ['C16'], '[T] with symbolic length, [T; 3], [T; 0]', complete='bounded: <= 3 elements')
+_k('K.collect.vec', 'k_collect_vec', ['C16'], 'Vec: every element', complete='bounded: <= 2 elements')
+_k('K.collect.linked_list', 'k_collect_linked_list', ['C16'], 'LinkedList: every element', complete='bounded: 2 elements')
+_k('K.collect.slice_with_header', 'k_collect_slice_with_header', ['C16'], 'SliceWithHeader: header and every element', complete='bounded: <= 2 elements')
+_k('K.collect.vecdeque', 'k_collect_vecdeque_wrapped', ['C16'], 'VecDeque contiguous and WRAPPED around the ring buffer: every element position', complete='bounded: capacity 4, 3 elements')
+_k('K.collect.btreemap', 'k_collect_btreemap', ['C16'], 'BTreeMap values (strong and weak)', complete='bounded: 1 entry')
+_k('K.collect.smallvec', 'k_collect_smallvec', ['C16'], 'SmallVec inline and spilled', complete='bounded: <= 3 elements', features='smallvec,enum-map,slotmap')
+_k('K.collect.enum_map', 'k_collect_enum_map', ['C16'], 'EnumMap<bool, _>: the value of every key', features='smallvec,enum-map,slotmap')
+_k('K.collect.slotmap', 'k_collect_slotmap', ['C16'], 'SlotMap: every stored value, removed values not reported', complete='bounded: 2 entries', features='smallvec,enum-map,slotmap')
+_k('K.collect.hashbrown', 'k_collect_hashbrown_map', ['C16'], 'hashbrown::HashMap values, strong and weak (trivial hasher)', complete='bounded: 1 entry', features='hashbrown', tier='thorough')
+_k('K.derive.structs', 'k_derive_structs', ['C15'], 'derive output for named / tuple / unit structs, require_static at first / middle / last position, all-static: exact pointers in declaration order; NEEDS_TRACE', complete='bounded: corpus of 8 struct shapes (complete in the field values)')
+_k('K.derive.enums_generics_nested', 'k_derive_enums_generics_nested', ['C15'], 'derive output for enums with mixed variants (only the active variant, require_static inside a variant), generics with and without bound, nested containers, explicit gc_lifetime', complete='bounded: corpus of 6 shapes (complete in the field values)')
+_k('K.step.backward_barriers_earn_no_credit', 'k_step_backward_barriers_earn_no_credit', ['C10'], 'C10 as stated: no backward barrier raises a credit counter or lowers a debit counter')
+_k('K.step.forward_barriers_earn_no_credit', 'k_step_forward_barriers_earn_no_credit', ['C10'], 'C10 as stated, forward barriers: FAILS for a White child while marking (known finding F3)')
+
+PROP_ASSUMES.update({
+    'C14': ['A-collect', 'A-client', 'extraction', 'tools'],
+    'C15': ['tools'], 'C16': ['tools'], 'C18': ['A-unwind', 'extraction', 'shim', 'tools'], 'C19': ['tools'],
+    'C20': ['extraction', 'shim', 'tools'],
+})
+ASSUMPTIONS['A-rcptr'] = 'Weak::as_ptr of a dead Rc allocation kept alive by a Weak never equals Rc::as_ptr of a live Rc (the crate states the same assumption)'
+PROP_ASSUMES['C14'].insert(0, 'A-rcptr')
